@@ -10,7 +10,10 @@ Extracted (nothing is imported or executed):
   * what `TreeNeuron.__getstate__` pops, the `no_copy` list of `TreeNeuron.copy` and whether `copy` is
     `if not self.is_stale: … else: x._clear_temp_attr()`
   * the shape of `BaseNeuron.is_stale`, `BaseNeuron._clear_temp_attr` (incl. any rewrite of `exclude`), the
-    `temp_property` wrapper and `utils.lock_neuron` (lock released in a `finally:`).
+    `temp_property` wrapper and `utils.lock_neuron` (lock released in a `finally:`; staleness check + clear
+    before the lock is taken)
+  * what `BaseNeuron.core_md5` feeds to the hash function: column selection, any dtype conversion (as a literal)
+    and the number of significand bits that survive it.
 """
 import ast
 from pathlib import Path
@@ -214,6 +217,283 @@ def shape_excl_rewrite(fn):
     return prefix
 
 
+def _attr_of(node, attr):
+    """`<expr>.<attr>` -> source of <expr>, else None"""
+    if isinstance(node, ast.Attribute) and node.attr == attr:
+        return _src(node.value)
+    return None
+
+
+def shape_lock_entry(fn):
+    """lock_neuron: does the wrapper validate the caches before it takes the lock?
+
+    True iff, in the inner wrapper, a statement of the shape
+        if not A.is_locked and A.is_stale: A._clear_temp_attr()
+    (or the nested form `if not A.is_locked: if A.is_stale: A._clear_temp_attr()`) with A the object whose `_lock`
+    is incremented comes *before* that increment.  False iff the wrapper never mentions `is_stale` /
+    `_clear_temp_attr`.  Any other use of them is a protocol the model does not know (error)."""
+    inner = [n for n in fn.body if isinstance(n, ast.FunctionDef)]
+    if not inner:
+        return False
+    w = inner[0]
+    # position of the increment of `_lock` and the locked object
+    incs = []
+    for n in ast.walk(w):
+        if isinstance(n, ast.Assign) and len(n.targets) == 1 and _attr_of(n.targets[0], '_lock') is not None \
+                and isinstance(n.value, ast.BinOp) and isinstance(n.value.op, ast.Add):
+            incs.append((n.lineno, _attr_of(n.targets[0], '_lock')))
+        if isinstance(n, ast.AugAssign) and isinstance(n.op, ast.Add) and _attr_of(n.target, '_lock') is not None:
+            incs.append((n.lineno, _attr_of(n.target, '_lock')))
+    mentions = [n for n in ast.walk(w) if isinstance(n, ast.Attribute) and n.attr in ('is_stale', '_clear_temp_attr')]
+    if not mentions:
+        return False
+    if len(incs) != 1:
+        raise ValueError('lock_neuron: cannot locate the increment of `_lock`')
+    inc_line, obj = incs[0]
+
+    def is_clear(stmts):
+        return len(stmts) == 1 and isinstance(stmts[0], ast.Expr) and isinstance(stmts[0].value, ast.Call) \
+            and _attr_of(stmts[0].value.func, '_clear_temp_attr') == obj and not stmts[0].value.args \
+            and not stmts[0].value.keywords
+
+    def not_locked(t):
+        return isinstance(t, ast.UnaryOp) and isinstance(t.op, ast.Not) and _attr_of(t.operand, 'is_locked') == obj
+
+    found = []
+    for n in ast.walk(w):
+        if not isinstance(n, ast.If) or n.orelse:
+            continue
+        t = n.test
+        if isinstance(t, ast.BoolOp) and isinstance(t.op, ast.And) and len(t.values) == 2 and not_locked(t.values[0]) \
+                and _attr_of(t.values[1], 'is_stale') == obj and is_clear(n.body):
+            found.append(n)
+        elif not_locked(t) and len(n.body) == 1 and isinstance(n.body[0], ast.If) and not n.body[0].orelse \
+                and _attr_of(n.body[0].test, 'is_stale') == obj and is_clear(n.body[0].body):
+            found.append(n)
+    covered = set()
+    for n in found:
+        covered |= {id(m) for m in ast.walk(n)}
+    if len(found) != 1 or any(id(m) not in covered for m in mentions):
+        raise ValueError('lock_neuron: `is_stale` / `_clear_temp_attr` used in a way the cache model does not know')
+    if not found[0].lineno < inc_line:
+        raise ValueError('lock_neuron: staleness check does not precede the increment of `_lock`')
+    return True
+
+
+def shape_hash(fn):
+    """core_md5: (selectsCols, cast literal, significand bits of what reaches the hash function).
+
+    Follows the assignments to `data` inside the loop over CORE_DATA.  Known steps: `getattr(self, prop)`,
+    `data[cols]` (column selection), `data.values` / `data.to_numpy()` without dtype (pandas common dtype: float64
+    for the int64/float64 node table, 53 significand bits), `np.ascontiguousarray(data)`.  Every other assignment to
+    `data` is reported literally as a cast; the hash calls must receive `data` itself."""
+    selects = False
+    casts = []
+    plain = {'getattr(self, prop)', 'data.values', 'data.to_numpy()', 'np.ascontiguousarray(data)'}
+    for n in ast.walk(fn):
+        if isinstance(n, ast.Assign) and any(isinstance(t, ast.Name) and t.id == 'data' for t in n.targets):
+            v = _src(n.value)
+            if v == 'data[cols]':
+                selects = True
+            elif v not in plain:
+                casts.append(v)
+        if isinstance(n, ast.AugAssign) and isinstance(n.target, ast.Name) and n.target.id == 'data':
+            casts.append(_src(n))
+        if isinstance(n, ast.Call) and _src(n.func) in ('xxhash.xxh128', 'hashlib.md5', 'xxhash.xxh64', 'xxhash.xxh3_128',
+                                                        'hashlib.sha1', 'hashlib.sha256'):
+            arg = _src(n.args[0]) if n.args else ''
+            if arg != 'data':
+                casts.append(f'hash({arg})')
+    cast = '; '.join(casts)
+    if not casts:
+        bits = 53
+    elif len(casts) == 1 and 'hash(' not in cast and 'float64' in cast and 'float32' not in cast:
+        bits = 53
+    elif len(casts) == 1 and 'hash(' not in cast and ('float32' in cast or "'f4'" in cast or 'single' in cast):
+        bits = 24
+    elif len(casts) == 1 and 'hash(' not in cast and ('float16' in cast or 'half' in cast):
+        bits = 11
+    else:
+        bits = 0
+    return selects, cast, bits
+
+
+GRAPH_ATTR = {'graph': '_graph_nx', '_graph_nx': '_graph_nx', 'igraph': '_igraph', '_igraph': '_igraph'}
+MUTATORS = {'add_edge', 'add_edges', 'add_edges_from', 'add_weighted_edges_from', 'remove_edge', 'remove_edges_from',
+            'add_node', 'add_nodes_from', 'remove_node', 'remove_nodes_from', 'clear', 'clear_edges', 'update',
+            'delete_edges', 'delete_vertices', 'add_vertices', 'add_vertex', 'to_undirected', 'to_directed', 'contract_vertices',
+            'simplify', 'permute_vertices', 'rewire', 'rewire_edges'}
+
+
+def shape_copy_sharing(fn):
+    """TreeNeuron.copy: which cached graph objects does the copy SHARE with the original?
+
+    An assignment `x.<attr> = V` hands the copy an independent object only if V is provably one: `<..>.copy()` /
+    `.deepcopy()` without `as_view`, or with `as_view=False`.  `self._graph_nx.copy(as_view=E)` with any other E, the
+    attribute itself, or a conditional expression with such a branch count as shared (a view of / the same object)."""
+    def independent(v):
+        if isinstance(v, ast.IfExp):
+            return independent(v.body) and independent(v.orelse)
+        if isinstance(v, ast.Call) and isinstance(v.func, ast.Attribute) and v.func.attr in ('copy', 'deepcopy'):
+            kw = {k.arg: k.value for k in v.keywords}
+            return 'as_view' not in kw or _lit(kw['as_view']) is False
+        if isinstance(v, ast.Call) and _src(v.func) in ('copy.deepcopy', 'nx.DiGraph'):
+            return True
+        return False
+    shared = []
+    for n in ast.walk(fn):
+        if isinstance(n, ast.Assign) and len(n.targets) == 1 and isinstance(n.targets[0], ast.Attribute) \
+                and n.targets[0].attr in ('_graph_nx', '_igraph'):
+            if not independent(n.value):
+                shared.append(n.targets[0].attr)
+    return sorted(set(shared))
+
+
+NX_PURE = {'to_undirected', 'to_directed', 'simplify'}     # return a new graph for networkx objects
+
+
+def _bindings(fn, name):
+    """(line, value node or None, stmt) of every binding of local `name` in source order"""
+    out = []
+    for n in ast.walk(fn):
+        if isinstance(n, ast.Assign):
+            for t in n.targets:
+                for tt in (t.elts if isinstance(t, (ast.Tuple, ast.List)) else [t]):
+                    if isinstance(tt, ast.Name) and tt.id == name:
+                        out.append((n.lineno, n.value if not isinstance(t, (ast.Tuple, ast.List)) else None, n))
+        elif isinstance(n, ast.AnnAssign) and isinstance(n.target, ast.Name) and n.target.id == name and n.value is not None:
+            out.append((n.lineno, n.value, n))
+        elif isinstance(n, (ast.For, ast.comprehension)):
+            for tt in ast.walk(n.target):
+                if isinstance(tt, ast.Name) and tt.id == name:
+                    out.append((getattr(n, 'lineno', getattr(n.target, 'lineno', 0)), None, n))
+        elif isinstance(n, ast.withitem) and n.optional_vars is not None:
+            for tt in ast.walk(n.optional_vars):
+                if isinstance(tt, ast.Name) and tt.id == name:
+                    out.append((n.optional_vars.lineno, None, n))
+    return sorted(out, key=lambda b: b[0])
+
+
+def _alias_attr(v):
+    """`<name>.graph` / `.igraph` / `._graph_nx` / `._igraph` (plain attribute, no call) -> (attr, owner)"""
+    if isinstance(v, ast.Attribute) and v.attr in GRAPH_ATTR and isinstance(v.value, ast.Name):
+        return GRAPH_ATTR[v.attr], v.value.id
+    return None
+
+
+def extract_editors(repo):
+    """Functions that edit a cached graph object IN PLACE: a mutating method is called on (or `.es[..]` / `.vs[..]` is
+    assigned of) a local whose defining binding is a plain `<obj>.graph` / `.igraph` / `._graph_nx` / `._igraph` (bindings
+    computed from the local itself, e.g. `g = nx.DiGraph(g)`, do not end the alias; any other re-binding — a fresh
+    graph, a loop variable — does).  `detaches` is True iff between that binding and the mutation the function re-binds
+    the local AND the attribute to an independent object (`x._graph_nx = g = nx.DiGraph(g)` / `g.copy()`), either in the
+    same statement list (unconditionally) or in the final `elif not <flag>:` branch of an if-chain whose flag starts
+    False and is set True right after the chain (detach once per call) and whose other branches detach too, except
+    a networkx-version guard."""
+    res, seen = [], set()
+    for f in sorted((repo / 'navis').rglob('*.py')):
+        rel = f.relative_to(repo).as_posix()
+        if '/tests/' in rel or rel.startswith('navis/tests'):
+            continue
+        try:
+            tree = ast.parse(f.read_text())
+        except SyntaxError:
+            continue
+        for fn in ast.walk(tree):
+            if not isinstance(fn, (ast.FunctionDef, ast.AsyncFunctionDef)):
+                continue
+            muts = []       # (line, local name, method)
+            for n in ast.walk(fn):
+                if isinstance(n, ast.Call) and isinstance(n.func, ast.Attribute) and n.func.attr in MUTATORS \
+                        and isinstance(n.func.value, ast.Name):
+                    muts.append((n.lineno, n.func.value.id, n.func.attr))
+                if isinstance(n, ast.Assign):
+                    for t in n.targets:
+                        if isinstance(t, ast.Subscript) and isinstance(t.value, ast.Attribute) and t.value.attr in ('es', 'vs') \
+                                and isinstance(t.value.value, ast.Name):
+                            muts.append((n.lineno, t.value.value.id, 'es/vs[...]='))
+                # `<obj>.graph.remove_edge(...)`: mutation of the cached object without a local in between
+                if isinstance(n, ast.Call) and isinstance(n.func, ast.Attribute) and n.func.attr in MUTATORS \
+                        and _alias_attr(n.func.value) is not None:
+                    attr_, _own = _alias_attr(n.func.value)
+                    if not (attr_ == '_graph_nx' and n.func.attr in NX_PURE):
+                        key_ = (f"{rel[len('navis/'):-3].replace('/', '.')}.{fn.name}", attr_)
+                        if key_ not in seen:
+                            seen.add(key_)
+                            res.append(dict(fn=key_[0], attr=attr_, detaches=False, line=n.lineno))
+            for line, name, meth in sorted(muts):
+                binds = [b for b in _bindings(fn, name) if b[0] < line]
+                # defining binding: the latest one that is not computed from the local itself
+                own = [b for b in binds if b[1] is None or not any(isinstance(m, ast.Name) and m.id == name for m in ast.walk(b[1]))]
+                if not own:
+                    continue
+                l0, v0, st0 = own[-1]
+                al = _alias_attr(v0) if v0 is not None else None
+                if al is None:
+                    continue
+                attr, owner = al
+                if attr == '_graph_nx' and meth in NX_PURE:
+                    continue
+                key = (f"{rel[len('navis/'):-3].replace('/', '.')}.{fn.name}", attr)
+                if key in seen:
+                    continue
+                seen.add(key)
+
+                def rebinds(stmt):
+                    if not isinstance(stmt, ast.Assign):
+                        return False
+                    tg = [_src(t) for t in stmt.targets]
+                    return name in tg and f'{owner}.{attr}' in tg and _src(stmt.value) in (
+                        f'nx.DiGraph({name})', f'{name}.copy()', f'nx.DiGraph({name}.copy())')
+
+                detaches = False
+                blk0 = _block_of(fn, st0)
+                for n in ast.walk(fn):
+                    if not (l0 < getattr(n, 'lineno', -1) < line):
+                        continue
+                    if rebinds(n) and any(n is b for b in blk0):
+                        detaches = True
+                    if isinstance(n, ast.If):
+                        chain, cur = [], n
+                        while True:
+                            chain.append((cur.test, cur.body))
+                            if len(cur.orelse) == 1 and isinstance(cur.orelse[0], ast.If):
+                                cur = cur.orelse[0]
+                            else:
+                                tail = cur.orelse
+                                break
+                        test, body = chain[-1]
+                        if tail or not (isinstance(test, ast.UnaryOp) and isinstance(test.op, ast.Not) and isinstance(test.operand, ast.Name)):
+                            continue
+                        flag = test.operand.id
+                        if not any(rebinds(b) for b in body):
+                            continue
+                        others_ok = all(any(rebinds(b) for b in bd) or 'version' in _src(t) for t, bd in chain[:-1])
+                        init_false = any(isinstance(m, ast.Assign) and _src(m.targets[0]) == flag and _lit(m.value) is False
+                                         and m.lineno < n.lineno for m in ast.walk(fn))
+                        set_true = any(isinstance(m, ast.Assign) and _src(m.targets[0]) == flag and _lit(m.value) is True
+                                       and n.lineno < m.lineno < line for m in ast.walk(fn))
+                        if others_ok and init_false and set_true:
+                            detaches = True
+                res.append(dict(fn=key[0], attr=attr, detaches=detaches, line=line))
+    return res
+
+
+def _block_of(fn, stmt):
+    for n in ast.walk(fn):
+        for fld in ('body', 'orelse', 'finalbody'):
+            b = getattr(n, fld, None)
+            if isinstance(b, list) and any(x is stmt for x in b):
+                return b
+    return []
+
+
+def _unconditional(fn, stmt, line0):
+    """stmt sits in the same statement list as the binding at line0 (no enclosing `if` in between)"""
+    b = _block_of(fn, stmt)
+    return any(getattr(x, 'lineno', -1) == line0 for x in b)
+
+
 def shape_lock(fn):
     """lock_neuron: the decrement of `_lock` must sit in the `finally:` of the `try:` that runs the wrapped call."""
     inner = [n for n in fn.body if isinstance(n, ast.FunctionDef)]
@@ -312,12 +592,18 @@ def extract(repo: Path):
     deco = ast.parse((repo / 'navis/utils/decorators.py').read_text())
     ln = [n for n in deco.body if isinstance(n, ast.FunctionDef) and n.name == 'lock_neuron']
     lock_finally = shape_lock(ln[0]) if ln else False
+    lock_checks = shape_lock_entry(ln[0]) if ln else False
+    hash_selects, hash_cast, hash_bits = shape_hash(_method(BN, 'core_md5'))
     no_copy, copy_clears = shape_copy(_method(TN, 'copy'))
     drops = shape_getstate(_method(TN, '__getstate__'))
+    shared = shape_copy_sharing(_method(TN, 'copy'))
+    editors = extract_editors(repo)
     return dict(tempAttr=temp_attr, coreTable=table, coreCols=cols, views=views, clearSites=sites,
                 lockedFns=locked_fns, getstateDrops=drops, copyNoCopy=no_copy, copyClearsIfStale=copy_clears,
                 isStaleRecomputes=recomputes, isStaleSticky=sticky, clearGuardsLock=guards, clearRestamps=restamps,
-                clearDeletes=deletes, wrapperChecks=wrapper, exclPrefix=excl_prefix, lockFinally=lock_finally)
+                clearDeletes=deletes, wrapperChecks=wrapper, exclPrefix=excl_prefix, lockFinally=lock_finally,
+                lockChecksStale=lock_checks, hashSelectsCols=hash_selects, hashCast=hash_cast, hashBits=hash_bits,
+                sharedOnCopy=shared, editors=editors)
 
 
 def generate(repo: Path):
@@ -327,7 +613,7 @@ def generate(repo: Path):
     L.append('/-! GENERATED by translator/gen_cache.py from the navis source — do not edit.')
     L.append('TEMP_ATTR, CORE_DATA, cached views (+ `@temp_property`), every `_clear_temp_attr` call site with its')
     L.append('literal `exclude`, `@lock_neuron` functions, `__getstate__` drops, `copy`, shapes of `is_stale`,')
-    L.append('`_clear_temp_attr` and the `temp_property` wrapper. -/')
+    L.append('`_clear_temp_attr`, the `temp_property` wrapper, `lock_neuron` and `core_md5`. -/')
     L.append('namespace Navis.Gen.CacheSpec')
     L.append('open Navis.Cache')
     L.append('')
@@ -337,6 +623,10 @@ def generate(repo: Path):
     L.append('')
     L.append('def clearSites : List ClearSite := [')
     L.append(',\n'.join(f'  ⟨"{s["fn"]}", {lstr(s["excl"])}, {lb(s["locked"])}⟩' for s in d['clearSites']))
+    L.append(']')
+    L.append('')
+    L.append('def editors : List Editor := [')
+    L.append(',\n'.join(f'  ⟨"{e["fn"]}", "{e["attr"]}", {lb(e["detaches"])}⟩' for e in d['editors']))
     L.append(']')
     L.append('')
     L.append('def spec : Spec where')
@@ -349,8 +639,12 @@ def generate(repo: Path):
     L.append(f'  getstateDrops := {lstr(d["getstateDrops"])}')
     L.append(f'  copyNoCopy := {lstr(d["copyNoCopy"])}')
     for k in ('copyClearsIfStale', 'isStaleRecomputes', 'isStaleSticky', 'clearGuardsLock', 'clearRestamps',
-              'clearDeletes', 'wrapperChecks', 'exclPrefix', 'lockFinally'):
+              'clearDeletes', 'wrapperChecks', 'exclPrefix', 'lockFinally', 'lockChecksStale', 'hashSelectsCols'):
         L.append(f'  {k} := {lb(d[k])}')
+    L.append(f'  hashCast := {lstr([d["hashCast"]])[1:-1]}')
+    L.append(f'  hashBits := {d["hashBits"]}')
+    L.append(f'  sharedOnCopy := {lstr(d["sharedOnCopy"])}')
+    L.append('  editors := editors')
     L.append('')
     L.append('end Navis.Gen.CacheSpec')
     L.append('')
@@ -361,7 +655,11 @@ def generate(repo: Path):
             'exclude_literals': sorted({tuple(s['excl']) for s in d['clearSites']}),
             'locked_fns': d['lockedFns'], 'getstate_drops': d['getstateDrops'], 'copy_no_copy': d['copyNoCopy'],
             'flags': {k: d[k] for k in ('copyClearsIfStale', 'isStaleRecomputes', 'isStaleSticky', 'clearGuardsLock',
-                                        'clearRestamps', 'clearDeletes', 'wrapperChecks', 'exclPrefix', 'lockFinally')}}
+                                        'clearRestamps', 'clearDeletes', 'wrapperChecks', 'exclPrefix', 'lockFinally',
+                                        'lockChecksStale', 'hashSelectsCols')},
+            'hash': {'cast': d['hashCast'], 'bits': d['hashBits']},
+            'shared_on_copy': d['sharedOnCopy'],
+            'inplace_editors': [{k: e[k] for k in ('fn', 'attr', 'detaches')} for e in d['editors']]}
     return 'CacheSpec.lean', '\n'.join(L), meta
 
 
